@@ -544,6 +544,16 @@ impl<T: GseDecapMemory, C: CrcCalculator, MHEM: MandatoryHeaderExtensionManager>
         }
     }
 
+    /// A first fragment supersedes the pending reassembly of its frag id, also when it is itself rejected:
+    /// the following fragments belong to the new PDU and must not complete the older one.
+    /// The storage of the dropped reassembly is given back to the memory.
+    fn drop_pending_frag(&mut self, frag_id: u8) -> Result<(), DecapMemoryError> {
+        match self.memory.take_frag(frag_id) {
+            Ok((_, pdu)) => self.memory.provision_storage(pdu),
+            Err(_) => Ok(()),
+        }
+    }
+
     #[inline(always)]
     fn decap_first(
         &mut self,
@@ -594,6 +604,9 @@ impl<T: GseDecapMemory, C: CrcCalculator, MHEM: MandatoryHeaderExtensionManager>
 
         if label == Label::SixBytesLabel([0, 0, 0, 0, 0, 0]) {
             self.last_label = None;
+            if let Err(err) = self.drop_pending_frag(frag_id) {
+                return Err((DecapError::ErrorMemory(err), pkt_len));
+            }
             return Err((DecapError::ErrorInvalidLabel, pkt_len));
         }
 
@@ -603,14 +616,23 @@ impl<T: GseDecapMemory, C: CrcCalculator, MHEM: MandatoryHeaderExtensionManager>
             LabelType::ReUse => match self.last_label {
                 Some(Label::Broadcast) => {
                     self.last_label = None;
+                    if let Err(err) = self.drop_pending_frag(frag_id) {
+                        return Err((DecapError::ErrorMemory(err), pkt_len));
+                    }
                     return Err((DecapError::ErrorLabelBroadcastSaved, pkt_len));
                 }
                 Some(Label::ReUse) => {
                     self.last_label = None;
+                    if let Err(err) = self.drop_pending_frag(frag_id) {
+                        return Err((DecapError::ErrorMemory(err), pkt_len));
+                    }
                     return Err((DecapError::ErrorLabelReUseSaved, pkt_len));
                 }
                 None => {
                     self.last_label = None;
+                    if let Err(err) = self.drop_pending_frag(frag_id) {
+                        return Err((DecapError::ErrorMemory(err), pkt_len));
+                    }
                     return Err((DecapError::ErrorNoLabelSaved, pkt_len));
                 }
                 _ => self.last_label.unwrap(),
@@ -636,10 +658,16 @@ impl<T: GseDecapMemory, C: CrcCalculator, MHEM: MandatoryHeaderExtensionManager>
                 Err(e) => match e {
                     ExtensionHeaderError::BufferTooSmall => {
                         self.last_label = None;
+                        if let Err(err) = self.drop_pending_frag(frag_id) {
+                            return Err((DecapError::ErrorMemory(err), buffer_len));
+                        }
                         return Err((DecapError::ErrorSizePduBuffer, buffer_len));
                     }
                     ExtensionHeaderError::UnknownMandatoryHeader => {
                         self.last_label = None;
+                        if let Err(err) = self.drop_pending_frag(frag_id) {
+                            return Err((DecapError::ErrorMemory(err), pkt_len));
+                        }
                         return Err((DecapError::ErrorUnkownMandatoryHeader, pkt_len));
                     }
                 },
@@ -656,6 +684,9 @@ impl<T: GseDecapMemory, C: CrcCalculator, MHEM: MandatoryHeaderExtensionManager>
         // check the total len
         if total_len <= calculed_pdu_len as u16 {
             self.last_label = None;
+            if let Err(err) = self.drop_pending_frag(frag_id) {
+                return Err((DecapError::ErrorMemory(err), buffer_len));
+            }
             return Err((DecapError::ErrorTotalLength, buffer_len));
         }
 
